@@ -67,7 +67,9 @@ def shrink(dialect, d, packets, focus, regs=None, strict=False, budget=80):
 
 def report(ctx, pid, kind, dialect, d, packets, focus, regs, strict, lib_sel, other_sel, other_name, shrinkable=True):
     if shrinkable:
-        try: packets = shrink(dialect, d, packets, focus, regs, strict)
+        # (a play that does not return costs its whole time limit per attempt: shrink with a small budget then)
+        hang = any('HANG' in l for l in (lib_sel[1] if lib_sel and len(lib_sel) > 1 else []))
+        try: packets = shrink(dialect, d, packets, focus, regs, strict, budget=10 if hang else 80)
         except Exception: pass
     st = b''.join(synth.frame(t, tb, pl) for t, tb, pl, _ in packets)
     lib, mod = observe(dialect, d, st, regs, strict)
